@@ -77,6 +77,7 @@ type Solver struct {
 	log     io.Writer
 	isCVC   bool
 	dead    bool
+	hardMs  int // wall-clock limit per query enforced by killing the process (soft limit x3 + 5 s)
 }
 
 func NewSolver(bin string, timeoutMs int) *Solver {
@@ -85,7 +86,9 @@ func NewSolver(bin string, timeoutMs int) *Solver {
 	if isCVC {
 		args = []string{"--incremental", "--lang=smt2", "--strings-exp", fmt.Sprintf("--tlimit-per=%d", timeoutMs)}
 	} else {
-		args = []string{"-in"}
+		// hard memory cap per solver process (MB): string constraints occasionally make z3 ignore its soft timeout and
+		// grow without bound; an exhausted cap ends the process, which counts as "solver died" (path inconclusive)
+		args = []string{"-in", "-memory:3000"}
 	}
 	cmd := exec.Command(bin, args...)
 	in, _ := cmd.StdinPipe()
@@ -94,7 +97,7 @@ func NewSolver(bin string, timeoutMs int) *Solver {
 	if err := cmd.Start(); err != nil {
 		panic(err)
 	}
-	s := &Solver{bin: bin, cmd: cmd, in: in, out: bufio.NewReader(outp), decl: map[string]string{}, isCVC: isCVC}
+	s := &Solver{bin: bin, cmd: cmd, in: in, out: bufio.NewReader(outp), decl: map[string]string{}, isCVC: isCVC, hardMs: 3*timeoutMs + 5000}
 	if isCVC {
 		s.send("(set-logic ALL)")
 		s.send("(set-option :produce-models true)")
@@ -156,7 +159,18 @@ type solverDied struct{ msg string }
 func (s *Solver) Check() string {
 	t0 := time.Now()
 	s.send("(check-sat)")
-	r := s.readLine()
+	done := make(chan struct{})
+	go func() {
+		select {
+		case <-done:
+		case <-time.After(time.Duration(s.hardMs) * time.Millisecond):
+			s.cmd.Process.Kill() // readLine below fails: the path ends inconclusive and the worker starts a new solver
+		}
+	}()
+	r := func() string {
+		defer close(done)
+		return s.readLine()
+	}()
 	s.Queries++
 	s.Time += time.Since(t0)
 	switch r {
